@@ -267,9 +267,7 @@ def run_case(case, rec, rng):
             if b.params and case.get("after_set") and any(x[0] in ("par", "pel", "vparv", "dotP") for x in A.walk(node)):
                 newvals = case["after_set"]
                 try:
-                    for pn, nv in newvals.items():
-                        if pn in b.params:
-                            b.params[pn].set(nv)
+                    b.set_params(newvals)
                     obs2 = [("compute_degree", AN.compute_degree(e)), ("Expression.degree", e.degree),
                             ("is_linear", 1 if AN.is_linear(e) else None), ("is_quadratic", 2 if AN.is_quadratic(e) else None),
                             ("Problem._is_linear_problem", 1 if optyx.Problem().minimize(e)._is_linear_problem() else None)]
